@@ -506,7 +506,7 @@ def main(rep, ws, tier):
     emit(rep, out)
     from . import c19ir
     nidx = c19ir.main_idx(rep, ws)
-    rep.floor('index-arithmetic obligations (IR)', nidx, 11)
+    rep.floor('index-arithmetic obligations (IR)', nidx, 12)
     floors = {'acc': 2, 'wguard': 40, 'wprop': 15, 'inv': 3, 'tuple': 8, 'life': 3, 'buf': 20, 'str': 5, 'order2d': 3}
     for k, v in floors.items():
         rep.floor('R19.%s instances' % k, counts.get(k, 0), v)
